@@ -1,5 +1,50 @@
-(* Props/C08.v — placeholder; the read-only purity theorem is added once Proofs/EvalRO.v is done. *)
-From YQ Require Import Base.Str Model.Node Model.Store Model.Eval.
-Theorem C08_selfcheck : forall st, eval 1 ESelf true [] [] st = Ok ([], st).
-Proof. reflexivity. Qed.
-Print Assumptions C08_selfcheck.
+(* Props/C08.v — property theorems only. *)
+From YQ Require Import Base.Str Model.Node Model.Store Model.Eval Proofs.EvalRO.
+
+(* Read-only evaluation of an expression without assignment / update / delete
+   (the in-place operator flatten now works on a copy) only allocates: the
+   store afterwards is the store before with new roots appended.  For every
+   fuel, expression, variable environment, context and store. *)
+Theorem C08_ro_store_monotone : forall f e vs ctx st o,
+  afree e = true -> eval f e true vs ctx st = Ok o -> exists x, snd o = st ++ x.
+Proof. exact ro_store_monotone. Qed.
+Print Assumptions C08_ro_store_monotone.
+
+(* ... hence every pre-existing node keeps every field *)
+Theorem C08_ro_old_nodes_unchanged : forall f e vs ctx st o,
+  afree e = true -> eval f e true vs ctx st = Ok o ->
+  forall p, (fst p < length st)%nat -> deref (snd o) p = deref st p.
+Proof. exact ro_old_nodes_unchanged. Qed.
+Print Assumptions C08_ro_old_nodes_unchanged.
+
+(* the first form the property names: `e as $x | .` prints the document *)
+Theorem C08_as_prints_doc : forall f e x doc o,
+  afree e = true ->
+  eval f (EAs e x ESelf) false [] [(O, [])] (init_store doc) = Ok o ->
+  Forall (fun p => deref (snd o) p = Some doc) (fst o).
+Proof. exact as_prints_doc. Qed.
+Print Assumptions C08_as_prints_doc.
+
+(* the second form: select(e) passes context nodes through unmodified, in any context mode *)
+Theorem C08_select_passes_unmodified : forall f e ro vs ctx st o,
+  afree e = true -> eval f (ESelect e) ro vs ctx st = Ok o ->
+  incl (fst o) ctx /\ forall p, (fst p < length st)%nat -> deref (snd o) p = deref st p.
+Proof. exact select_passes_unmodified. Qed.
+Print Assumptions C08_select_passes_unmodified.
+
+(* non-vacuity: the model can express mutation — a *writable* traversal pads the
+   document — so the theorems above are not true by construction; and an
+   expression with many operators satisfies the hypothesis *)
+Example C08_writable_traversal_mutates :
+  let doc := Map [([97], Seq [(RIdx 0, Scalar TInt [49])])] in
+  exists o, eval 10 (EIndex (EKey [97]) (Some (ELit TInt [50]))) false [] [(O, [])] (init_store doc) = Ok o
+            /\ deref (snd o) (O, []) <> Some doc.
+Proof. eexists. split; [vm_compute; reflexivity | vm_compute; discriminate]. Qed.
+
+Example C08_same_read_only_does_not :
+  let doc := Map [([97], Seq [(RIdx 0, Scalar TInt [49])])] in
+  let e := EIndex (EKey [97]) (Some (ELit TInt [50])) in
+  afree (ESelect (EBin OEq e (ELit TNull [110; 117; 108; 108]))) = true /\
+  exists o, eval 10 (EAs e [120] ESelf) false [] [(O, [])] (init_store doc) = Ok o
+            /\ deref (snd o) (O, []) = Some doc /\ length (fst o) = 1%nat.
+Proof. split; [reflexivity|]. eexists. split; [vm_compute; reflexivity | vm_compute; split; reflexivity]. Qed.
